@@ -355,3 +355,83 @@ func (s *Solver) CheckWith(extra *T) string {
 	s.Pop()
 	return r
 }
+
+// Script renders a standalone SMT-LIB2 script asserting all the given terms.
+func Script(terms []*T) string {
+	var sb strings.Builder
+	sb.WriteString("(set-logic ALL)\n")
+	seen := map[int]bool{}
+	vars := map[string]bool{}
+	var emit func(t *T)
+	emit = func(t *T) {
+		switch t.op {
+		case OConst:
+			return
+		case OVar:
+			if !vars[t.name] {
+				vars[t.name] = true
+				fmt.Fprintf(&sb, "(declare-const %s %s)\n", t.name, sortStr(t.w))
+			}
+			return
+		}
+		if seen[t.id] {
+			return
+		}
+		seen[t.id] = true
+		for _, a := range t.args {
+			emit(a)
+		}
+		if t.op == OUF && !vars["uf:"+t.name] {
+			vars["uf:"+t.name] = true
+			fmt.Fprintf(&sb, "(declare-fun %s (", t.name)
+			for _, a := range t.args {
+				sb.WriteString(sortStr(a.w) + " ")
+			}
+			fmt.Fprintf(&sb, ") %s)\n", sortStr(t.w))
+		}
+		fmt.Fprintf(&sb, "(define-fun n%d () %s %s)\n", t.id, sortStr(t.w), body(t))
+	}
+	for _, t := range terms {
+		emit(t)
+		fmt.Fprintf(&sb, "(assert %s)\n", ref(t))
+	}
+	sb.WriteString("(check-sat)\n")
+	return sb.String()
+}
+
+// Portfolio asks other solvers (one-shot) about a query the primary solver could not decide.
+func Portfolio(terms []*T, timeoutMs int) (string, string) {
+	f, err := os.CreateTemp(os.Getenv("TMPDIR"), "gse_q_*.smt2")
+	if err != nil {
+		return "unknown", ""
+	}
+	defer os.Remove(f.Name())
+	f.WriteString(Script(terms))
+	f.Close()
+	secs := timeoutMs/1000 + 1
+	for _, cmd := range [][]string{
+		{"z3-new", fmt.Sprintf("-T:%d", secs), f.Name()},
+		{"cvc5", fmt.Sprintf("--tlimit=%d", timeoutMs), f.Name()},
+	} {
+		c := exec.Command(cmd[0], cmd[1:]...)
+		c.SysProcAttr = &syscall.SysProcAttr{Pdeathsig: syscall.SIGKILL}
+		done := make(chan []byte, 1)
+		go func() { out, _ := c.Output(); done <- out }()
+		var out []byte
+		select {
+		case out = <-done:
+		case <-time.After(time.Duration(timeoutMs)*time.Millisecond + 10*time.Second):
+			if c.Process != nil {
+				c.Process.Kill()
+			}
+			out = <-done
+		}
+		for _, line := range strings.Split(string(out), "\n") {
+			line = strings.TrimSpace(line)
+			if line == "sat" || line == "unsat" {
+				return line, cmd[0]
+			}
+		}
+	}
+	return "unknown", ""
+}
